@@ -28,7 +28,8 @@ TRUSTED = [
 ]
 ASSUME = [
     "tie to the code: check_ocase is evaluated inside Coq on traced real runs (the first %d legs per run in the quick "
-    "tier); acceptance is exact equality of the model state with the recorded internals (lists in order) at every leg",
+    "tier); acceptance requires the model state to equal the recorded internals at every leg (same keys, the occupant and "
+    "surplus list of every cell as multisets, active cell and active identifier exactly)",
     "run_occ_inv is about the recorded positions: that inactive units do not move between commits and that a "
     "cell-boundary event places the unit on the neighbour's boundary value are facts of the recorded run checked at "
     "every leg (hyps_ok / crossing_ok), not consequences of a model of the event handlers (kinematics: C07)",
